@@ -310,11 +310,35 @@ def _opts_from_json(oj):
     return o
 
 
+def _as_form(vec, form):
+    """the same amplitudes in another Python representation: False/True (ndarray / list of complex) or one of
+    'tuple', 'real_list', 'int_list', 'int_array', 'read_only', 'real_array'"""
+    if form is True:
+        return [complex(x) for x in vec]
+    if not form:
+        return np.array(vec)
+    if form == "tuple":
+        return tuple(complex(x) for x in vec)
+    if form == "real_list":
+        return [float(np.real(x)) for x in vec]
+    if form == "real_array":
+        return np.array([float(np.real(x)) for x in vec])
+    if form == "int_list":
+        return [int(round(float(np.real(x)))) for x in vec]
+    if form == "int_array":
+        return np.array([int(round(float(np.real(x)))) for x in vec])
+    if form == "read_only":
+        a = np.array(vec)
+        a.setflags(write=False)
+        return a
+    raise ValueError(form)
+
+
 def _run(cls, opts, vec, as_list):
     """returns (error string or None, max amplitude deviation, exception type name or None)"""
     from qiskit.quantum_info import Statevector
     n = int(np.log2(len(vec)))
-    arg = [complex(x) for x in vec] if as_list else np.array(vec)
+    arg = _as_form(vec, as_list)
     o = None if opts is None else dict(opts)
     try:
         gate = build(cls, o, arg)
@@ -403,7 +427,8 @@ def eval_case(ctx, cls, opts, vec, family, as_list=False, tag=""):
         return True
     cause = _diagnose(cls, opts, vec, as_list, exc)
     oj = _opts_json(opts)
-    case = {"class": cls, "opt_params": oj, "n": n, "family": family, "tag": tag, "as_list": bool(as_list),
+    case = {"class": cls, "opt_params": oj, "n": n, "family": family, "tag": tag,
+            "as_list": as_list if isinstance(as_list, str) else bool(as_list),
             "cause": cause, "exception": None if exc is None else exc[0],
             "raised_in": None if exc is None else exc[1], "vector": enc_vec(vec)}
     for k in ("scheme", "iso_scheme", "unitary_scheme", "strategy", "use_low_rank", "lib", "global_phase", "svd"):
@@ -418,6 +443,7 @@ def eval_case(ctx, cls, opts, vec, family, as_list=False, tag=""):
 def evaluate(ctx, deep):
     rng = ctx.rng
     schur_sweep(ctx, deep)
+    input_forms(ctx, deep)
     nmax = 8 if deep else 6
     for n in range(1, nmax + 1):
         if deep:
@@ -443,6 +469,29 @@ def evaluate(ctx, deep):
                               sample={"class": cls, "opt_params": _opts_json(opts), "n": n, "data": fam,
                                       "vector_head": [complex(x) for x in vec[:4]]} if n == 3 else None)
                     eval_case(ctx, cls, opts, vec, fam, as_list, tag)
+
+
+def input_forms(ctx, deep):
+    """the same vector handed over in other Python representations (tuple, real list / array, integer list / array for
+    basis states, read-only array) must give the same exact preparation"""
+    rng = ctx.rng
+    classes = ["TopDownInitialize", "LowRankInitialize", "SVDInitialize", "UCGInitialize", "UCGEInitialize",
+               "IsometryInitialize", "BaaLowRankInitialize"]
+    for n in ((1, 2, 3, 4) if deep else (2, 3)):
+        N = 2 ** n
+        basis = np.zeros(N, complex)
+        basis[int(rng.integers(N))] = 1.0
+        realv = _unit(rng.normal(size=N))
+        signs = _unit(rng.choice([-1.0, 1.0], size=N))
+        cplx = _unit(rng.normal(size=N) + 1j * rng.normal(size=N))
+        plan = [("int_list", basis), ("int_array", basis), ("real_list", realv), ("real_array", signs), ("tuple", cplx),
+                ("read_only", cplx), ("read_only", basis)]
+        for cls in classes:
+            for form, vec in plan:
+                ctx.monitor("form:" + form)
+                ctx.count(f"{cls.replace('Initialize', '')}:input_form", key=(cls, form, n, vec.tobytes()), nontrivial=n >= 2,
+                          sample={"class": cls, "form": form, "n": n} if n == 2 and cls == "TopDownInitialize" else None)
+                eval_case(ctx, cls, None, vec, "input_form:" + form, form, "default")
 
 
 def schur_sweep(ctx, deep):
